@@ -16,7 +16,7 @@ PROPERTY = 'C02'
 META = {
     'level': 'fault_enumeration',
     'technique': 'reference-slicing monitor on the real frame parser under enumerated chunkings + fault enumeration of every truncation offset of a request stream against the real TCP server with state/liveness oracles',
-    'text': 'Parser level: streams of 1..6 frames (payloads 0, 1, odd, even, up to 9 kB so a frame spans several recv blocks) are chunked in every two-way split exhaustively, byte-at-a-time, '
+    'text': 'While a cut stream is still pending (before its end) the long-lived session reads a tag and a new connection registers, on alternate trials; at the client, a scripted peer in lockstep mode stays quiet after each frame (header-only refusals and NOPs among them) until the client has delivered it, so a frame held back until more input arrives is seen. Parser level: streams of 1..6 frames (payloads 0, 1, odd, even, up to 9 kB so a frame spans several recv blocks) are chunked in every two-way split exhaustively, byte-at-a-time, '
             'seeded k-way and all-in-one, and fed to the real enip_machine the way the server and the client do; every parsed header field, payload and the running sent count must equal reference '
             'slicing (24 + declared length per frame). The cpppo client receive loop is driven by a harness server that segments a reply stream the same ways (replies, Register replies and NOP keep-alives, i.e. frames whose first byte is zero; also two frames coalesced per receive). Server level: a request stream '
             '(writes, reads, a bundle) is cut at truncation offsets (quick: every offset in the last write frame, every frame boundary +-1, header field boundaries and a seeded sample; thorough: '
